@@ -34,6 +34,10 @@ func doSelftest(args []string) int {
 		for rep := 0; rep < 10; rep++ {
 			os.Setenv("VERIF_WORKER_GOMAXPROCS", gmp)
 			job := worker.Job{Engine: pi.Engine, Property: prop, Tier: "quick", Mode: "seeds", BatchSeed: uint64(envInt("VERIF_SEED", 1)), First: 0, Stride: 1, MaxRuns: runs, Samples: 1 << 30}
+			if os.Getenv("VERIF_SELFTEST_ENUM") != "" && pi.Enum {
+				// the systematic batch: base scenarios and their placements
+				job.Mode, job.MaxPairs, job.MaxRuns = "enum", 5, runs*3
+			}
 			sub := filepath.Join(scratch, fmt.Sprintf("g%s-%d", gmp, rep))
 			_ = os.MkdirAll(sub, 0o755)
 			br, err := runJob(sub, 0, job, pi.Race, pi.perRun())
